@@ -126,6 +126,9 @@ def gen(rng):
         if cand:
             sc["raiser"] = rng.choice(cand)
             return sc
+    if rng.random() < 0.08 and first["mode"] in ("ping_timeout", "close_body", "eof"):
+        sc["sender"] = {"at": rng.choice((S // 2, S)), "block": rng.choice((None, 10 * S, 20 * S)), "len": 50}
+        return sc
     if rng.random() < 0.15:
         sc["tls"] = True  # SSLDispatcher, pending(), TLS shutdown on the way out
     if first["mode"] in ("close_body", "close_nobody", "cb_close", "thread_close") and first.get("cb") != "on_error" and rng.random() < 0.3:
@@ -228,6 +231,11 @@ def expand(item, seed):
                         if not as_second and not ping and cb is None and mode in ("close_body", "close_nobody", "eof", "reset"):
                             for rz in ("on_open", "on_message", "on_data", "on_ping"):
                                 yield {"first": r, "callbacks": ALL_CBS, "policy": {"kind": "coop", "p_call": 0.0}, "seed": 3, "raiser": rz}
+                        if not as_second and cb is None and mode in ("ping_timeout", "close_body", "eof") and (ping or mode == "ping_timeout"):
+                            # an application thread sits in send() (server window closed, for good or for a while) when the run ends
+                            for blk in (None, 20 * S):
+                                yield {"first": r, "callbacks": ALL_CBS, "policy": {"kind": "coop", "p_call": 0.0}, "seed": 3,
+                                       "sender": {"at": S // 2, "block": blk, "len": 50}}
                         if as_second:
                             if mode in ("thread_close", "ping_timeout_midframe"):
                                 continue
@@ -398,7 +406,10 @@ def run(sc, choices=None):
             if first["mode"] not in ("close_body", "close_nobody", "cb_close", "thread_close") or first.get("cb") == "on_error" or sc.get("second"):
                 raise InvalidScenario("with a reconnect interval only endings that must stop the run are judged here (C15 covers the rest)")
             ro1 = dict(ro1, reconnect=int(sc["reconnect"]))
-        asc = {"conns": [spec1], "callbacks": cb_all, "run": ro1, "closer": closer, "policy": sc.get("policy"),
+        sender = sc.get("sender")
+        if sender is not None and (first["mode"] not in ("ping_timeout", "close_body", "eof") or sc.get("second") or sc.get("closer") or sc.get("tls")):
+            raise InvalidScenario("sender")
+        asc = {"conns": [spec1], "callbacks": cb_all, "run": ro1, "closer": closer, "policy": sc.get("policy"), "sender": sender,
                "seed": sc.get("seed", 1), "runs": 1, "time_cap_s": 400, "step_cap": 800_000}
         exp2 = None
         if second is not None:
@@ -484,6 +495,8 @@ def run(sc, choices=None):
             ctx = f"{mode}/{r.get('cb')}"
         else:
             ctx = mode
+        if sc.get("sender") and ri == 0:
+            ctx = "application_thread_in_send"  # one cause whatever the ending: everything that writes waits for the send lock
         if ri == 1:
             ctx = "second_run/" + ctx
         _judge(res, run_, exp, r, ctx, asc["callbacks"] if ri == 0 else out["cbs2"], w, async_close=(ri == 0 and bool(closer) and fired))
@@ -612,4 +625,4 @@ def _judge(res, run_, exp, r, ctx, cbs, w, async_close=False):
 
 def sample_view(sc, r):
     return {"first": sc["first"], "second": sc.get("second"), "callbacks": sorted(sc.get("callbacks") or {}), "tls": sc.get("tls"), "reconnect": sc.get("reconnect"),
-            "closer": sc.get("closer"), "policy": sc.get("policy"), "raiser": sc.get("raiser")}
+            "closer": sc.get("closer"), "policy": sc.get("policy"), "raiser": sc.get("raiser"), "sender": sc.get("sender")}
